@@ -887,6 +887,70 @@ class WidthMix(Base):
       s.p @= (~reduce_or(s.w[0:8])) | reduce_xor(s.a)
 
 
+class Lane(Component):
+  def construct(s):
+    s.in_ = InPort(Bits8)
+    s.out = [OutPort(Bits8) for _ in range(2)]
+
+    @update
+    def up_lane():
+      s.out[0] @= s.in_ + 1
+      s.out[1] @= ~s.in_
+
+
+@design(lambda st, a, b, sel, en, reset: (None, {"o[0]": [(a + 1) & M8, ~a & M8][sel & 1], "o[1]": [(b + 1) & M8, ~b & M8][sel & 1], "p": ~b & M8}))
+class LanePick(Base):
+  """a port array inside a component array: component index = loop variable, port index = a signal of the parent"""
+  def construct(s):
+    s.ports()
+    s.o = [OutPort(Bits8) for _ in range(2)]
+    s.p = OutPort(Bits8)
+    s.lane = [Lane() for _ in range(2)]
+
+    @update
+    def up_lp1():
+      s.lane[0].in_ @= s.a
+      s.lane[1].in_ @= s.b
+
+    @update
+    def up_lp2():
+      for i in range(2):
+        s.o[i] @= s.lane[i].out[s.sel[0]]
+      s.p @= s.lane[1].out[1]
+
+
+class Lane2D(Component):
+  def construct(s):
+    s.in_ = InPort(Bits8)
+    s.out = [[OutPort(Bits8) for _ in range(3)] for _ in range(2)]
+
+    @update
+    def up_lane2d():
+      for j in range(2):
+        for k in range(3):
+          s.out[j][k] @= s.in_ + (3 * j + k)
+
+
+@design(lambda st, a, b, sel, en, reset: (None, {"o[0]": (a + 5) & M8, "o[1]": (b + 5) & M8, "p": (b + 1) & M8, "q": (b + 3 * en + 1) & M8}))
+class Lane2DPick(Base):
+  """a 2-D port array inside a component array, read with constant, loop-variable and signal indices"""
+  def construct(s):
+    s.ports()
+    s.o = [OutPort(Bits8) for _ in range(2)]
+    s.p = OutPort(Bits8)
+    s.q = OutPort(Bits8)
+    s.inner = [Lane2D() for _ in range(2)]
+    s.inner[0].in_ //= s.a
+    s.inner[1].in_ //= s.b
+
+    @update
+    def up_l2d():
+      for i in range(2):
+        s.o[i] @= s.inner[i].out[1][2]
+      s.p @= s.inner[1].out[0][1]
+      s.q @= s.inner[1].out[s.en][1]
+
+
 def sequences():
   """input sequences (lists of dicts): one long deterministic walk covering every (sel, en) with varied a, b; reset pulses inside"""
   A = (0, 1, 0x5A, 0xFF, 0x80, 0x0F, 0x37)
